@@ -98,6 +98,13 @@ func (b *RecBucket) Ops() []Op {
 	return append([]Op(nil), b.ops...)
 }
 
+// Counted returns the number of operations that received an index so far.
+func (b *RecBucket) Counted() int {
+	b.mu.Lock()
+	defer b.mu.Unlock()
+	return b.n
+}
+
 // Inner gives direct (unrecorded) access for scenario set-up and inspection.
 func (b *RecBucket) Inner() *objstore.InMemBucket { return b.inner }
 
@@ -142,6 +149,11 @@ func (b *RecBucket) record(o Op) {
 }
 
 func (b *RecBucket) Upload(ctx context.Context, name string, r io.Reader, opts ...objstore.ObjectUploadOption) error {
+	// a cancelled context fails the call before it reaches the store (as every real provider does);
+	// such calls are not bucket operations and are not recorded
+	if err := ctx.Err(); err != nil {
+		return err
+	}
 	body, rerr := io.ReadAll(r)
 	switch b.gate(true) {
 	case 2:
@@ -161,6 +173,9 @@ func (b *RecBucket) Upload(ctx context.Context, name string, r io.Reader, opts .
 }
 
 func (b *RecBucket) Delete(ctx context.Context, name string) error {
+	if err := ctx.Err(); err != nil {
+		return err
+	}
 	switch b.gate(true) {
 	case 2:
 		return ErrCrashed
@@ -176,6 +191,9 @@ func (b *RecBucket) Delete(ctx context.Context, name string) error {
 }
 
 func (b *RecBucket) Exists(ctx context.Context, name string) (bool, error) {
+	if err := ctx.Err(); err != nil {
+		return false, err
+	}
 	switch b.gate(false) {
 	case 2:
 		return false, ErrCrashed
@@ -191,6 +209,9 @@ func (b *RecBucket) Exists(ctx context.Context, name string) (bool, error) {
 }
 
 func (b *RecBucket) Get(ctx context.Context, name string) (io.ReadCloser, error) {
+	if err := ctx.Err(); err != nil {
+		return nil, err
+	}
 	switch b.gate(false) {
 	case 2:
 		return nil, ErrCrashed
@@ -206,6 +227,9 @@ func (b *RecBucket) Get(ctx context.Context, name string) (io.ReadCloser, error)
 }
 
 func (b *RecBucket) GetRange(ctx context.Context, name string, off, length int64) (io.ReadCloser, error) {
+	if err := ctx.Err(); err != nil {
+		return nil, err
+	}
 	switch b.gate(false) {
 	case 2:
 		return nil, ErrCrashed
@@ -221,6 +245,9 @@ func (b *RecBucket) GetRange(ctx context.Context, name string, off, length int64
 }
 
 func (b *RecBucket) Attributes(ctx context.Context, name string) (objstore.ObjectAttributes, error) {
+	if err := ctx.Err(); err != nil {
+		return objstore.ObjectAttributes{}, err
+	}
 	switch b.gate(false) {
 	case 2:
 		return objstore.ObjectAttributes{}, ErrCrashed
@@ -237,6 +264,9 @@ func (b *RecBucket) Attributes(ctx context.Context, name string) (objstore.Objec
 
 // Iter lists under the gate, then calls f outside it (f issues further operations).
 func (b *RecBucket) Iter(ctx context.Context, dir string, f func(string) error, options ...objstore.IterOption) error {
+	if err := ctx.Err(); err != nil {
+		return err
+	}
 	switch b.gate(false) {
 	case 2:
 		return ErrCrashed
@@ -261,6 +291,9 @@ func (b *RecBucket) Iter(ctx context.Context, dir string, f func(string) error, 
 }
 
 func (b *RecBucket) IterWithAttributes(ctx context.Context, dir string, f func(objstore.IterObjectAttributes) error, options ...objstore.IterOption) error {
+	if err := ctx.Err(); err != nil {
+		return err
+	}
 	switch b.gate(false) {
 	case 2:
 		return ErrCrashed
